@@ -47,6 +47,10 @@ def build(fmt, choice, faults=(), **kw):
         return req, attest.build_registration(req)
     except attest.NotApplicable:
         return None
+    except ValueError as e:
+        if "too long for key size" in str(e):
+            return None     # this key cannot produce a signature under the scheme the fault calls for (PS512 on 1024 bits)
+        raise
     except (AttributeError, TypeError, KeyError):
         if len(req.faults) + len(req.chain_faults) > 1:
             return None     # a combination of faults the simulator cannot build consistently
